@@ -29,6 +29,14 @@ type Q struct {
 	N       int    // variable or label name
 	F       string // native name (call0: error|length ; binop: add ...)
 	SA, SB  *Q     // binop operands (restricted kinds: id c index iter empty call0)
+	Ps      []Param // def: formal parameters
+	Args    []*Q    // callf: actual parameters
+}
+
+// a formal parameter: a filter (def f(g): named f<N>) or a value (def f($x): named $v<N>)
+type Param struct {
+	Val bool
+	N   int
 }
 
 func valSexp(v any) string { return SexpVal(v) }
@@ -106,9 +114,24 @@ func (q *Q) Sexp() string {
 	case "binop":
 		return "(binop " + q.F + " " + q.SA.Sexp() + " " + q.SB.Sexp() + ")"
 	case "def":
-		return fmt.Sprintf("(def %d %s %s)", q.N, q.A.Sexp(), q.B.Sexp())
+		if len(q.Ps) == 0 {
+			return fmt.Sprintf("(def %d %s %s)", q.N, q.A.Sexp(), q.B.Sexp())
+		}
+		ps := make([]string, len(q.Ps))
+		for i, p := range q.Ps {
+			if p.Val {
+				ps[i] = fmt.Sprintf("(pv %d)", p.N)
+			} else {
+				ps[i] = fmt.Sprintf("(pf %d)", p.N)
+			}
+		}
+		return fmt.Sprintf("(defp %d (%s) %s %s)", q.N, strings.Join(ps, " "), q.A.Sexp(), q.B.Sexp())
 	case "callf":
-		return fmt.Sprintf("(callf %d)", q.N)
+		s := fmt.Sprintf("(callf %d", q.N)
+		for _, a := range q.Args {
+			s += " " + a.Sexp()
+		}
+		return s + ")"
 	}
 	panic(q.K)
 }
@@ -242,9 +265,27 @@ func (q *Q) T(r *Rng) string {
 	case "binop":
 		return q.SA.P(r) + " " + opSym[q.F] + " " + q.SB.P(r)
 	case "def":
-		return fmt.Sprintf("def f%d: %s; %s", q.N, q.A.T(r), q.B.T(r))
+		if len(q.Ps) == 0 {
+			return fmt.Sprintf("def f%d: %s; %s", q.N, q.A.T(r), q.B.T(r))
+		}
+		ps := make([]string, len(q.Ps))
+		for i, p := range q.Ps {
+			if p.Val {
+				ps[i] = fmt.Sprintf("$v%d", p.N)
+			} else {
+				ps[i] = fmt.Sprintf("f%d", p.N)
+			}
+		}
+		return fmt.Sprintf("def f%d(%s): %s; %s", q.N, strings.Join(ps, "; "), q.A.T(r), q.B.T(r))
 	case "callf":
-		return fmt.Sprintf("f%d", q.N)
+		if len(q.Args) == 0 {
+			return fmt.Sprintf("f%d", q.N)
+		}
+		as := make([]string, len(q.Args))
+		for i, a := range q.Args {
+			as[i] = a.T(r)
+		}
+		return fmt.Sprintf("f%d(%s)", q.N, strings.Join(as, "; "))
 	}
 	panic(q.K)
 }
@@ -262,11 +303,20 @@ func (q *Q) msgfree() bool {
 	case "callf":
 		return false
 	}
+	for _, a := range q.Args {
+		if !a.msgfree() {
+			return false
+		}
+	}
 	return q.A.msgfree() && q.B.msgfree() && q.C.msgfree() && q.D.msgfree() && q.SA.msgfree() && q.SB.msgfree()
 }
 
 // ---- generation ----
-type scope struct{ vars, lbls, funcs []int }
+type fsig struct{ id, argc int }
+type scope struct {
+	vars, lbls []int
+	funcs      []fsig
+}
 
 func (s scope) withVar(n int) scope {
 	return scope{append(append([]int{}, s.vars...), n), s.lbls, s.funcs}
@@ -274,12 +324,12 @@ func (s scope) withVar(n int) scope {
 func (s scope) withLbl(n int) scope {
 	return scope{s.vars, append(append([]int{}, s.lbls...), n), s.funcs}
 }
-func (s scope) withFunc(n int) scope {
-	return scope{s.vars, s.lbls, append(append([]int{}, s.funcs...), n)}
+func (s scope) withFunc(n, argc int) scope {
+	return scope{s.vars, s.lbls, append(append([]fsig{}, s.funcs...), fsig{n, argc})}
 }
 
-// the scope of a function body: the variables and functions visible at the definition, no label (the model
-// excludes a break from a function body to a label around the definition)
+// the scope of a function body or of a closure passed to a user-defined function: the variables and functions
+// visible there, no label (the model excludes a break out of a function body or such a closure)
 func (s scope) body() scope { return scope{s.vars, nil, s.funcs} }
 
 var constPool = []any{nil, true, false, 0, 1, 2, -1, "a", "b", []any{}, map[string]any{},
@@ -305,7 +355,9 @@ func leaves(s scope, small bool) []*Q {
 		out = append(out, &Q{K: "break", N: l})
 	}
 	for _, f := range s.funcs {
-		out = append(out, &Q{K: "callf", N: f})
+		if f.argc == 0 {
+			out = append(out, &Q{K: "callf", N: f.id})
+		}
 	}
 	if small {
 		out = append(out, &Q{K: "binop", F: "add", SA: &Q{K: "id"}, SB: &Q{K: "c", V: 1}},
@@ -481,11 +533,42 @@ func randQ(r *Rng, budget int, s scope) *Q {
 	}
 	b := budget - 1
 	split := func() (int, int) { x := 1 + r.Intn(max(1, b-1)); return x, max(1, b-x) }
-	if len(s.funcs) < 3 && r.Chance(1, 9) {
-		// a non-recursive definition: the body sees the earlier functions and the variables, not itself
+	if len(s.funcs) < 4 && r.Chance(1, 8) {
+		// a non-recursive definition: the body sees the earlier functions, the variables and its parameters, not itself
 		x, y := split()
 		n := len(s.funcs)
-		return &Q{K: "def", N: n, A: randQ(r, x, s.body()), B: randQ(r, y, s.withFunc(n))}
+		var ps []Param
+		bs := s.body()
+		if r.Chance(1, 2) {
+			for i := 1 + r.Intn(2); i > 0; i-- {
+				if r.Chance(1, 3) {
+					p := Param{true, 5 + len(ps)}
+					ps = append(ps, p)
+					bs = bs.withVar(p.N)
+				} else {
+					p := Param{false, 20 + 3*n + len(ps)}
+					ps = append(ps, p)
+					bs = bs.withFunc(p.N, 0)
+				}
+			}
+		}
+		return &Q{K: "def", N: n, Ps: ps, A: randQ(r, x, bs), B: randQ(r, y, s.withFunc(n, len(ps)))}
+	}
+	if r.Chance(1, 6) {
+		var cands []fsig
+		for _, f := range s.funcs {
+			if f.argc > 0 {
+				cands = append(cands, f)
+			}
+		}
+		if len(cands) > 0 {
+			f := cands[r.Intn(len(cands))]
+			q := &Q{K: "callf", N: f.id}
+			for i := 0; i < f.argc; i++ {
+				q.Args = append(q.Args, randQ(r, 1+r.Intn(max(1, b/f.argc)), s.body()))
+			}
+			return q
+		}
 	}
 	switch r.Intn(20) {
 	case 17, 18, 19:
@@ -595,6 +678,33 @@ func recProg(r *Rng) *Q {
 		rest = &Q{K: "arr", A: pipe(&Q{K: "comma", A: c(0), B: id()}, call)}
 	default:
 		rest = bin("add", call, pipe(c(1), call))
+	}
+	if r.Chance(1, 4) {
+		// recursion through a function with a filter or a value parameter
+		g := &Q{K: "callf", N: 20}
+		rec := &Q{K: "callf", N: 0, Args: []*Q{g}}
+		ps := []Param{{false, 20}}
+		var arg *Q
+		switch r.Intn(4) {
+		case 0:
+			body = &Q{K: "if", A: guard, B: pipe(bin("add", id(), c(1)), rec), C: g}
+			arg = bin("add", id(), c(10))
+		case 1:
+			body = &Q{K: "if", A: guard, B: &Q{K: "comma", A: g, B: pipe(bin("add", id(), c(1)), rec)}, C: &Q{K: "empty"}}
+			arg = &Q{K: "comma", A: id(), B: c("a")}
+		case 2: // the argument closure of the recursive call captures a variable of the current activation
+			v := &Q{K: "var", N: 0}
+			rec2 := &Q{K: "callf", N: 0, Args: []*Q{&Q{K: "comma", A: g, B: v}}}
+			body = &Q{K: "bind", A: id(), N: 0, B: &Q{K: "if", A: bin("lt", v, c(k)), B: pipe(bin("add", v, c(1)), rec2), C: g}}
+			arg = c(0)
+		default: // a value parameter
+			ps = []Param{{true, 5}}
+			v := &Q{K: "var", N: 5}
+			rec3 := &Q{K: "callf", N: 0, Args: []*Q{bin("add", v, c(1))}}
+			body = &Q{K: "if", A: bin("lt", v, c(k)), B: &Q{K: "comma", A: v, B: rec3}, C: bin("add", id(), v)}
+			arg = &Q{K: "comma", A: c(0), B: c(2)}
+		}
+		return &Q{K: "def", N: 0, Ps: ps, A: body, B: &Q{K: "callf", N: 0, Args: []*Q{arg}}}
 	}
 	q := &Q{K: "def", N: 0, A: body, B: rest}
 	if r.Chance(1, 3) { // a second function that calls the first
